@@ -112,6 +112,19 @@ Definition apply_enc (k : enckind) (u : uval) : option text :=
 Definition enc_of (ei es eb : text * enckind) (u : uval) : text * enckind :=
   match u with VInt _ => ei | VStr _ => es | VBytes _ => eb end.
 
+(* an ARGUMENT of remember(): a user id of one of the three table types, or an object of any other type (bool, float,
+   None, a str / int / bytes SUBCLASS, ...) of which only str(x) matters *)
+Inductive uarg := UKnown (u : uval) | UOther (s : text).
+Definition uarg_val (a : uarg) : uval := match a with UKnown u => u | UOther s => VStr s end.
+(* str(x) for x outside the table (only used on the branch where the type lookup found nothing) *)
+Definition str_other (a : uarg) : text := match a with UOther s => s | UKnown _ => [] end.
+(* userid_type_encoders.get(type(x)): the lookup is by EXACT type *)
+Definition enc_of_arg (ei es eb : text * enckind) (a : uarg) : option (text * enckind) :=
+  match a with UKnown u => Some (enc_of ei es eb u) | UOther _ => None end.
+
+(* AuthTktAuthenticationPolicy.unauthenticated_userid: None | the user id | it raised *)
+Inductive ures := UNone | USome (u : uval) | URaise.
+
 Definition apply_dec (uni_tr : N -> N) (k : deckind) (u : uval) : option uval :=
   let b64 (u : uval) : option (list N) :=
     match u with
